@@ -456,4 +456,26 @@ def _schedule_w(ctx):
 
 
 def rule_submit_discipline(ctx, r):
+    rule_submit_owner(ctx, r)
     return ctx.guarded(r, _submit_discipline_structural, _schedule_w(ctx), "src/gwf/scheduling.py::schedule")
+
+
+def rule_submit_owner(ctx, r):
+    """The functions that submit (or pretend to) are invoked by the decision procedure only: they are handed to schedule() as its submit_func
+    and never called from anywhere else, so no target reaches the backend without having been decided, with prerequisites from the map in force."""
+    idx, res = ctx.index, ctx.resolver
+    n = 0
+    for key in ("gwf.scheduling:submit_backend", "gwf.scheduling:_submit_dryrun"):
+        try:
+            f = idx.func(key)
+        except Exception:
+            continue
+        for caller, call in res.call_sites(f):
+            inside = caller.key.startswith("gwf.scheduling:schedule") or caller.key.startswith("gwf.scheduling:_schedule") or \
+                res.owned_by(caller, ["gwf.scheduling:schedule"])
+            n += 1
+            r.check(inside, f"{caller.module.relpath}::{caller.qual}::calls-{f.name}", "called from the decision procedure",
+                    f"{caller.qual} calls {f.name} itself (line {call.lineno}), outside schedule(): that target is submitted without the decision table having been "
+                    "consulted for it at that moment - an up-to-date, pending or already submitted target can be submitted (again), with prerequisites computed from "
+                    "a status map the earlier submissions have made stale", f"{caller.module.relpath}:{call.lineno}")
+    r.ok("src/gwf/scheduling.py::submit-functions", f"submit_backend/_submit_dryrun are only handed to schedule() as submit_func ({n} direct call sites, all inside it)", "src/gwf/scheduling.py:1")
